@@ -680,14 +680,32 @@ def check_clone(ctx, cfg, it):
             if src[0] == "P" and src[1] == ("field", ("arg", 1), (it.ia,)) and src[3] is not None:
                 src_ok = peq(an, zt.facts, src[2], lo * S) and peq(an, zt.facts, src[3], hi - lo)
         wr, cl = writes[0], clones[0]
-        body_ok = pair and cl.args[0] == el[2][1] and wr.args[0] == el[2][0] and wr.args[1] == cl.ret
+        if zt is None and not pair and el[0] == "P":
+            # form B: `for src in self.as_slice() { write(new.storage.add(new.index_back), src.clone()); new.index_back += 1 }` - the destination slot
+            # is named by the counter itself instead of being zipped in
+            from ..loops import find_loops
+            lps = [lp for lp in find_loops(an) if lp.nxt is nx]
+            src = lps[0].pipe if lps else None
+            src = src[3] if (isinstance(src, tuple) and src[:3] == ("V", "iter", "slice")) else src
+            if src is not None and src[0] == "P" and src[1] == ("field", ("arg", 1), (it.ia,)) and src[3] is not None and lps and not lps[0].backward and not lps[0].breaks:
+                src_ok = peq(an, nx.facts, src[2], lo * S) and peq(an, nx.facts, src[3], hi - lo)
+            wp = wr.args[0]
+            if wp[0] == "P" and wp[1][0] == "field" and wp[1][1][0] == "local" and wp[1][2] == (it.ia,):
+                newloc = wp[1][1][1]
+                incs_b = [s_ for s_ in an.assigns if s_["cell"] == (("local", newloc), (it.i1,))]
+                if len(incs_b) == 1 and incs_b[0]["val"][0] == "I":
+                    dst_ok = wp[2] == (incs_b[0]["val"][1] - Poly.const(1)) * S  # slot index == the count of clones written so far
+            pair = True
+            body_ok = cl.args[0] == el and wr.args[1] == cl.ret and dst_ok
+        else:
+            body_ok = pair and cl.args[0] == el[2][1] and wr.args[0] == el[2][0] and wr.args[1] == cl.ret
         # per iteration: index_back of the NEW iterator += 1, nothing else of it, nothing of self
         incs = [s for s in an.assigns if newloc is not None and s["cell"] == (("local", newloc), (it.i1,))]
         inc_ok = len(incs) == 1 and incs[0]["val"][0] == "I" and len((incs[0]["val"][1] - Poly.const(1)).atoms()) == 1 and an.dominates(wr.bb, incs[0]["site"][0])
         self_untouched = not stores_to(an, it, ("arg", 1))
         ret_ok = newloc is not None and all(r["val"][0] == "A" and r["val"][1] == ("adt", it.path, 0) and r["val"][2][it.i0] == ("I", Poly.const(0)) for r in an.returns)
         ok = init_ok and dst_ok and src_ok and body_ok and inc_ok and self_untouched and ret_ok
-        det = "fresh iterator starts (0, 0): %s; zip(destination = its storage from slot 0: %s, source = self[index, index_back): %s); per item: write(dst, clone(src)): %s then index_back += 1: %s; original untouched: %s; the new iterator (index 0) is returned: %s" % (
+        det = "fresh iterator starts (0, 0): %s; destination = its storage from slot 0, slot k for the k-th item (zipped, or addressed by the new index_back): %s, source = self[index, index_back) in order: %s; per item: write(dst, clone(src)): %s then index_back += 1: %s; original untouched: %s; the new iterator (index 0) is returned: %s" % (
             init_ok, dst_ok, src_ok, body_ok, inc_ok, self_untouched, ret_ok)
     ctx.ob(rule, K["clone"], ok, det, at=b["at"], cfg=cfg)
     ctx.sample({"rule": rule, "method": "clone", "cfg": cfg, "detail": det})
@@ -746,8 +764,14 @@ def check_unchecked_bounds(ctx, cfg, it):
         if k:
             anchors.add(b["key"])
     # non-vacuity: the mandatory accessors still reach their storage through a recognised (checked) access
+    from ..models import MODELS, verify_models
     for name in ("next", "next_back", "as_slice", "as_mut_slice"):
         if ctx.db(cfg).get(K[name]) is not None and K[name] not in anchors:
+            if name in ("as_slice", "as_mut_slice") and K[name] in MODELS:
+                # built without get_unchecked (e.g. from_raw_parts): the obligation is the extent of the returned view itself - exactly
+                # [index, index_back) of the iterator's own storage, which lies within the array under the invariant
+                verify_models(ctx, cfg, [K[name]], rule=rule)
+                continue
             b, an = analyse(ctx, cfg, K[name], it, False)
             raw = [c for c in slot_reads(an, it, ("arg", 1))]
             ctx.ob(rule, "%s#access" % K[name], bool(raw), "no get_unchecked on the iterator's storage; raw slot reads (bounds-checked by C06.S): %d" % len(raw), at=b["at"], cfg=cfg)
